@@ -31,10 +31,15 @@ class SetMutator(CollectionAttrMutator):
         try:  # If set supports lookup, try that first (e.g. KeyedSet)
             return (value_or_index, self.collection[value_or_index])
         except TypeError:
+            # Hand back the stored element, which is equal to (but not
+            # necessarily the same as) the value used to address it.
+            for item in self.collection:
+                if item == value_or_index:
+                    return (value_or_index, item)
             return (
                 value_or_index,
                 value_or_index,
-            )
+            )  # pragma: no cover; membership was checked above
 
     def _inserter(self, index, item, replace=True):  # pylint: disable=arguments-differ
         if not check_type(item, self.attr_spec.item_type):
